@@ -222,16 +222,22 @@ def gen_ops(prop, tier, seed):
     return [l for l in out.decode().split("\n") if l.strip()]
 
 
-def exec_ops(prop, ops, race=False, timeout=3600):
+def exec_ops(prop, ops, race=False, timeout=1500):
     """Run ops on the real zap. Returns list of result dicts (same order). A crash of the harness process
     is isolated by re-running the remaining ops, and the crashing op is reported as a harness crash."""
     binary = os.path.join(BIN, "zvh-race" if race else "zvh")
     results = []
     todo = list(ops)
     while todo:
-        p = subprocess.run([binary, "exec", prop], input=("\n".join(todo) + "\n").encode(), capture_output=True,
-                           timeout=timeout, env=ENV)
-        lines = [l for l in p.stdout.decode().split("\n") if l.strip()]
+        timed_out = False
+        try:
+            p = subprocess.run([binary, "exec", prop], input=("\n".join(todo) + "\n").encode(), capture_output=True,
+                               timeout=timeout, env=ENV)
+            pout, perr = p.stdout, p.stderr
+        except subprocess.TimeoutExpired as te:
+            timed_out = True
+            pout, perr = te.stdout or b"", te.stderr or b""
+        lines = [l for l in pout.decode(errors="replace").split("\n") if l.strip()]
         got = []
         for l in lines:
             try:
@@ -243,8 +249,11 @@ def exec_ops(prop, ops, race=False, timeout=3600):
             break
         # process died on op number len(got)
         crashed = todo[len(got)]
-        tail = p.stderr.decode()[-3000:]
+        tail = perr.decode(errors="replace")[-3000:]
         sig = "process-crash"
+        if timed_out:
+            sig = "timeout"
+            tail = "the harness did not finish this op within %ds (hang, livelock or runaway loop)\n" % timeout + tail
         if "DATA RACE" in tail:
             sig = "data-race"
         if "fatal error: all goroutines are asleep" in tail:
